@@ -219,8 +219,8 @@ class Prop(Check):
         "Link.C07_single_and_list",
     ]
     DRIVER = "Drivers/Link.lean"
-    QUICK_CASES = 1000
-    THOROUGH_CASES = 20000
+    QUICK_CASES = 800
+    THOROUGH_CASES = 40000
     RULE = ("generated grammar (2..5 leaf classes with required / optional / no name attribute, 0..3 nested abstract "
             "targets from simple alternatives, Elem and OBJECT targets) x model tree of 2..12 objects named from a pool of "
             "3..5 names x builtins dict (0..3 entries: metamodel-class instances, foreign object; generated or user "
